@@ -32,5 +32,5 @@ RefsConform == (Rec /\ C.genErr = "") => \A k \in 1..Len(C.runs) : \A a \in 1..L
        ex == run.execs[a]
        A == ActionOf(ex.action)
    IN /\ MarkerIdx(ex.stack, A.marker) # {}
-      /\ ex.vals = ExpectedAll(A.act.refs, 1, run.tokens, ex.stack, A.marker)
+      /\ Matches(ex.vals, ExpectedAll(A.act.refs, 1, run.tokens, ex.stack, A.marker))
 =============================================================================
